@@ -12,6 +12,8 @@
  */
 
 #include "interfaceMakerC.h"
+
+#include <sstream>
 #include "interrogateBuilder.h"
 #include "interrogate.h"
 #include "functionRemap.h"
@@ -191,11 +193,19 @@ write_function_instance(ostream &out, InterfaceMaker::Function *func,
     return;
   }
 
+  // The prototype may contain a default argument like "*/", which must not
+  // terminate the comment we are writing.
+  std::ostringstream prototype;
+  remap->write_orig_prototype(prototype, 0, false, remap->_num_default_parameters);
+  std::string prototype_str = prototype.str();
+  for (size_t p = prototype_str.find("*/"); p != std::string::npos;
+       p = prototype_str.find("*/", p + 3)) {
+    prototype_str.replace(p, 2, "* /");
+  }
+
   out << "/*\n"
       << " * C wrapper for\n"
-      << " * ";
-  remap->write_orig_prototype(out, 0, false, remap->_num_default_parameters);
-  out << "\n"
+      << " * " << prototype_str << "\n"
       << " */\n";
 
   if (!output_function_names) {
